@@ -240,6 +240,46 @@ pub fn o_iter<const L: usize, const N: usize, const SCOPE: u8>() {
     core::mem::forget(g);
 }
 
+/// C01/C06 with concrete bytes: two frames in a context that is NOT registered (their registration was
+/// removed, or they were imported), one frame in the zero context; scoped reads with and without
+/// last-id return exactly the context's frames (scoped iteration over >= 2 symbolic frames does not
+/// fit in 40 GB).
+pub fn iter_ctx_concrete() {
+    env::reset_all();
+    env::fjall::set_limit(3);
+    let sut = mk_store(2);
+    let cx = 77u128 << 80;
+    let t = 1000u128 << 80;
+    let f1 = mk_frame("a".to_string(), cx, t + 1, None);
+    let f0 = mk_frame("a".to_string(), 0, t + 2, None);
+    let f2 = mk_frame("b".to_string(), cx, t + 3, None);
+    install_one(&f1);
+    install_one(&f0);
+    install_one(&f2);
+    env::trace::reset();
+    let (a, na, ma) = {
+        let mut it = sut.store.iter_frames(Some(sid(cx)), None);
+        take_ids::<3>(&mut *it)
+    };
+    hx_check!(na == 2 && !ma && a[0] == t + 1 && a[1] == t + 3, "C01 a scoped read returns exactly the live frames of that context, in id order");
+    let last = sid(t + 1);
+    let (b, nb, mb) = {
+        let mut it = sut.store.iter_frames(Some(sid(cx)), Some(&last));
+        take_ids::<3>(&mut *it)
+    };
+    hx_check!(nb == 1 && !mb && b[0] == t + 3, "C01 a scoped read starts strictly after last-id");
+    let (z, nz, mz) = {
+        let mut it = sut.store.iter_frames(Some(ZERO_CONTEXT), None);
+        take_ids::<3>(&mut *it)
+    };
+    hx_check!(nz == 1 && !mz && z[0] == t + 2, "C06 a read scoped to the zero context sees nothing of another context");
+    hx_cover!(true, "reached");
+    core::mem::forget(sut);
+    core::mem::forget(f0);
+    core::mem::forget(f1);
+    core::mem::forget(f2);
+}
+
 fn expired(f: &Frame, now: u64) -> bool {
     match &f.ttl {
         Some(TTL::Time(d)) => {
@@ -808,44 +848,6 @@ pub fn o_remove_unregisters() {
     core::mem::forget(s2);
 }
 
-/// C08/C09 (solver-quantified kernel of the collector): one CheckHeadTTL task - every context,
-/// every topic of Q bytes, every keep - run by the REAL gc worker body over a symbolic N-frame
-/// state. The task is built directly (a real head:K append before it forks the store state and
-/// did not fit in 40 GB); the append -> task wiring is o_append's and o_gc_e2e's business.
-pub fn o_gc_task<const L: usize, const Q: usize, const N: usize>() {
-    let (sut, g) = setup::<L, N>(false, 0);
-    let qc = sid(nd::any_u128());
-    let qt = topic::<Q>();
-    let keep = nd::any_u32();
-    let _ = sut.store.gc_tx.send(GCTask::CheckHeadTTL { context_id: qc, topic: qt.clone(), keep });
-    gc_drain(&sut);
-    let mut newer = 0u32;
-    let mut i = N;
-    let mut evicted = 0;
-    while i > 0 {
-        i -= 1;
-        let f = &g[i].f;
-        let member = f.context_id == qc && topic_eq(&f.topic, &qt);
-        let should_go = member && newer >= keep;
-        if member {
-            newer += 1;
-        }
-        let still = sut.store.get(&f.id);
-        hx_check!(still.is_some() == !should_go, "C08 head:K eviction removes exactly the frames of that topic and context outside the K newest - never a frame of another topic (even a prefix-related one) or context");
-        if should_go {
-            evicted += 1;
-        }
-        core::mem::forget(still);
-    }
-    hx_cover!(
-        (L == Q && evicted == 1 && keep == 1 && newer == 2) || (L != Q && g[0].f.context_id == qc && g[N - 1].f.context_id == qc && keep == 0),
-        "equal lengths: keep 1 of two members evicts the older one; different lengths: prefix-related topics in the task's context are untouched even with keep 0"
-    );
-    core::mem::forget(sut);
-    core::mem::forget(g);
-    core::mem::forget(qt);
-}
-
 /// C08/C09 end to end, concrete bytes: "a", the prefix-related "ab" and another "a" in context 0;
 /// a REAL `head:1` append on ("a", 0); the REAL gc worker. Both older "a" frames are gone (not
 /// just one), "ab" is untouched, the new frame is the head.
@@ -1071,7 +1073,7 @@ pub fn o_reimport_amend<const L: usize>() {
 
 /// the same with concrete bytes (the symbolic variant needs > 25 GB once `insert_frame` does more
 /// than three writes)
-pub fn o_reimport_amend_c() {
+pub fn reimport_amend_concrete() {
     env::reset_all();
     env::fjall::set_limit(3);
     let sut = mk_store(2);
@@ -1163,15 +1165,12 @@ crate::scenarios! {
     o_gc_head_1_1_3 => o_gc_head::<1, 1, 3>();
     o_gc_head_2_2_3 => o_gc_head::<2, 2, 3>();
     o_gc_remove_1_2 => o_gc_remove::<1, 2>();
-    o_gc_task_1_1_2 => o_gc_task::<1, 1, 2>();
-    o_gc_task_1_2_2 => o_gc_task::<1, 2, 2>();
-    o_gc_task_2_1_2 => o_gc_task::<2, 1, 2>();
     o_gc_e2e_all => o_gc_e2e();
     o_gc_then_remove_all => o_gc_then_remove();
     o_gc_e2e2_prefix => o_gc_e2e2::<true>();
     o_gc_e2e2_two => o_gc_e2e2::<false>();
     o_reimport_amend_1 => o_reimport_amend::<1>();
-    o_reimport_amend_c => o_reimport_amend_c();
+    o_reimport_amend_c => reimport_amend_concrete();
     o_read_sync_c_exp_lim => o_read_sync_c::<true, true>();
     o_read_sync_c_exp_all => o_read_sync_c::<true, false>();
     o_read_sync_c_live_lim => o_read_sync_c::<false, true>();
@@ -1182,6 +1181,7 @@ crate::scenarios! {
     o_remove_k_1_2 => o_remove_k::<1, 2>();
     o_remove_head_1 => o_remove_head::<1>();
     o_reimport_k_1 => o_reimport_k::<1>();
+    o_iter_ctx_c => iter_ctx_concrete();
     o_iter_ctx_1_1 => o_iter::<1, 1, 1>();
     o_iter_ctx_0_1 => o_iter::<0, 1, 1>();
     o_import_reg_0 => o_import_reg::<0>();
